@@ -766,7 +766,7 @@ pub fn class_string(u: &mut Choice, alphabet: &[&[u8]], maxsyms: usize, out: &mu
 use crate::real::{Entry, C_IGNORE_REQ, C_IGNORE_RESP, C_MULTILINE, C_MULTISPACE_REQ, C_MULTISPACE_RESP,
     C_SPACES_AFTER_NAME, C_SPACE_BEFORE_FIRST};
 
-pub const N_FAMILIES: usize = 37;
+pub const N_FAMILIES: usize = 40;
 
 pub fn family_name(f: usize) -> &'static str {
     [
@@ -781,7 +781,8 @@ pub fn family_name(f: usize) -> &'static str {
         "long method token", "pure CR/LF", "target of multi-byte UTF-8",
         "interior SP run in a value (a + SP^n + b)", "interior HTAB run in a value", "whitespace-only folds then a visible byte",
         "many short whitespace runs in a value", "long SP run then a fold continuation", "SP run inside an ignored line",
-        "reason phrase with an interior SP run",
+        "reason phrase with an interior SP run", "reason phrase with a leading SP run (default-accepted)",
+        "SP run after the status code, no reason", "long run of leading SP/HTAB before every header line (space-before-first + ignore)",
     ][f % N_FAMILIES]
 }
 
@@ -1007,11 +1008,30 @@ pub fn family(f: usize, size: usize) -> (Entry, u8, Vec<u8>) {
             b.extend_from_slice(b"x\r\nA: b\r\n\r\n");
             (Entry::ReqCfg, C_IGNORE_REQ, b)
         }
-        _ => {
+        36 => {
             b.extend_from_slice(b"HTTP/1.1 200 a");
             rep(&mut b, b" ", size);
             b.extend_from_slice(b"b\r\nA: b\r\n\r\n");
             (Entry::RespParse, 0, b)
+        }
+        37 => {
+            b.extend_from_slice(b"HTTP/1.1 200");
+            rep(&mut b, b" ", size);
+            b.extend_from_slice(b"OK\r\nA: b\r\n\r\n");
+            (Entry::RespParse, 0, b)
+        }
+        38 => {
+            b.extend_from_slice(b"HTTP/1.0 204");
+            rep(&mut b, b" ", size);
+            b.extend_from_slice(b"\r\n\r\n");
+            (Entry::RespParse, 0, b)
+        }
+        _ => {
+            b.extend_from_slice(req);
+            b.extend_from_slice(b"A: b\r\n");
+            rep(&mut b, b"  \t x\r\n", size);
+            b.extend_from_slice(b"\r\n");
+            (Entry::ReqCfg, C_SPACE_BEFORE_FIRST | C_IGNORE_REQ, b)
         }
     }
 }
